@@ -9,13 +9,13 @@ import (
 	sdkmath "cosmossdk.io/math"
 	sdk "github.com/cosmos/cosmos-sdk/types"
 	authtypes "github.com/cosmos/cosmos-sdk/x/auth/types"
+	banktypes "github.com/cosmos/cosmos-sdk/x/bank/types"
 	distrtypes "github.com/cosmos/cosmos-sdk/x/distribution/types"
 	govtypes "github.com/cosmos/cosmos-sdk/x/gov/types"
 	govv1 "github.com/cosmos/cosmos-sdk/x/gov/types/v1"
 	govv1beta1 "github.com/cosmos/cosmos-sdk/x/gov/types/v1beta1"
 	stakingkeeper "github.com/cosmos/cosmos-sdk/x/staking/keeper"
 	stakingtypes "github.com/cosmos/cosmos-sdk/x/staking/types"
-	banktypes "github.com/cosmos/cosmos-sdk/x/bank/types"
 	ibctransfertypes "github.com/cosmos/ibc-go/v7/modules/apps/transfer/types"
 
 	haqqbankkeeper "github.com/haqq-network/haqq/x/bank/keeper"
@@ -27,8 +27,10 @@ import (
 )
 
 // C14 — redirected burns. Ops (shared with lean/HaqqModel/Driver/C14.lean):
-//   creset | fund <m> <amt> | burn <m> <amt> <bal>   (bal filled in by the executor)
-//   slash <kind> <fractionPermille> | govburn <deposit>      (monitor-only scenario ops on the real staking / gov keepers)
+//
+//	creset | fund <m> <amt> | burn <m> <amt> <bal>   (bal filled in by the executor)
+//	slash <kind> <fractionPermille> | govburn <deposit>      (monitor-only scenario ops on the real staking / gov keepers)
+//
 // module numbering: 0 distribution, 1 gov, 2 bonded pool, 3 not-bonded pool, 4 erc20, 5 liquidvesting, 6 coinomics, 7 evm, 8 ucdao, 9 transfer
 var c14Mods = []string{distrtypes.ModuleName, govtypes.ModuleName, stakingtypes.BondedPoolName, stakingtypes.NotBondedPoolName, erc20types.ModuleName, lvtypes.ModuleName, coinomicstypes.ModuleName, evmtypes.ModuleName, ucdaotypes.ModuleName, ibctransfertypes.ModuleName}
 
@@ -112,7 +114,9 @@ func c14Exec(c Case) (outs []string, fails []Failure, tags []string) {
 	checkRedirect := func(i int, what string, pre, post snap) {
 		left := new(big.Int).Add(sub(pre.bonded, post.bonded), sub(pre.notb, post.notb))
 		left.Add(left, sub(pre.gov, post.gov))
-		fl := func(sig, w string) { fails = append(fails, Failure{Signature: sig, What: what + ": " + w, Case: c[:i+1]}) }
+		fl := func(sig, w string) {
+			fails = append(fails, Failure{Signature: sig, What: what + ": " + w, Case: c[:i+1]})
+		}
 		if pre.sup.Cmp(post.sup) != 0 {
 			fl("C14:supply-changed", fmt.Sprintf("total supply %s → %s (pools lost %s)", pre.sup, post.sup, left))
 		}
